@@ -138,7 +138,12 @@ where
         let old = mem::replace(&mut self.tbl, vec![HashTableElement::default(); new_sz]);
         let c = self.cap;
         for i in old.iter() {
-            propagate(&mut self.tbl, self.cap, i.clone(), (i.hash as usize) % c);
+            // only occupied slots hold an entry; its probe sequence starts over in the new array
+            if i.is_occupied() {
+                let mut itm = i.clone();
+                itm.psl = 0;
+                propagate(&mut self.tbl, self.cap, itm, (i.hash as usize) % c);
+            }
         }
     }
 
